@@ -180,9 +180,9 @@ func (ch *chainSpec) relayFn(wire bool, cleanup *[]func()) func(ctx context.Cont
 		return wrapperspb.String("backend-resp"), nil
 	}}}
 	bsrv.RegisterService(bsvc.Desc(), common.Impl{})
-	brt := common.HandlerRT(bsrv)
+	brt := handlerRT("backend", bsrv)
 	if wire {
-		bts := httptest.NewServer(bsrv)
+		bts := httptest.NewServer(guardHandler("backend", bsrv))
 		*cleanup = append(*cleanup, bts.Close)
 		brt = wireRT(bts)
 	}
@@ -237,14 +237,26 @@ func spyRT(rt http.RoundTripper, got *reply) http.RoundTripper {
 }
 
 // checkServerWire: one serverCase end to end over loopback with option list o.
+//
+// A panic on the handler side is recovered by net/http, which drops the connection; it is
+// recorded first (guardHandler) and reported as such, with what the caller saw.
 func checkServerWire(c serverCase, o optSet) (string, string) {
-	srv, done := buildServer(c)
+	takePanics()
+	var srv *httpgrpc.Server
+	done := func() {}
+	if !guarded("server", func() { srv, done = buildServer(c) }) {
+		cl, d, _ := serverPanicVerdict("wire: building the server:")
+		return cl, d
+	}
 	defer done()
-	ts := httptest.NewServer(srv)
+	ts := httptest.NewServer(guardHandler("server", srv))
 	defer ts.Close()
 	got := reply{hdr: http.Header{}}
 	out, h, err, pnc := invoke(spyRT(wireRT(ts), &got), o)
 	obs := fmt.Sprintf("wire http=%d x-grpc-status=%q opts=%s", got.status, got.hdr.Values("X-GRPC-Status"), o)
+	if cl, d, bad := serverPanicVerdict(fmt.Sprintf("%s client=%v;", obs, err)); bad {
+		return cl, d
+	}
 	if pnc != nil {
 		return "panic", fmt.Sprintf("%s panic=%v", obs, pnc)
 	}
